@@ -353,6 +353,12 @@ func compareResult(op model.Op, want, got model.Result, drvName string) *failure
 		}
 		return nil
 	}
+	if op.ReturnValues != "" && op.Kind != "Get" {
+		// what a response carries under an explicit ReturnValues parameter is not
+		// decided (the library implements Delete ALL_OLD and always returns the new
+		// item from UpdateItem); the state comparison after the step is
+		return nil
+	}
 	switch op.Kind {
 	case "Get", "Update":
 		if !model.ItemEqual(want.Item, got.Item) {
